@@ -113,6 +113,16 @@ Theorem C14_roundtrip_balanced_variable : forall ff alen fc address dir fcb fcv 
   parse_bp ff alen f = BpSec fc fcb fcv (5 + alen) (lenz data) /\ user_data f (5 + alen) (lenz data) = data.
 Proof. exact parse_bp_var_prm. Qed.
 
+Theorem C14_roundtrip_balanced_variable_sec : forall ff alen fc address dir acd dfc data f, 0 <= alen <= 2 -> 0 <= fc < 16 -> addr_in_range alen address ->
+  enc_var alen fc address false dir acd dfc data = Some f ->
+  parse_bp ff alen f = BpPri fc dir dfc acd address (5 + alen) (lenz data) /\ user_data f (5 + alen) (lenz data) = data.
+Proof. exact parse_bp_var_sec. Qed.
+(* and a fixed frame at the unbalanced secondary (its own address, not the broadcast address) *)
+Theorem C14_roundtrip_fixed_unbalanced : forall ff alen own fc dir fcb fcv, 0 <= alen <= 2 -> 0 <= fc < 16 ->
+  addr_in_range alen own -> own <> broadcast_addr alen ->
+  parse_su ff alen own (enc_fixed alen fc own true dir fcb fcv) = SuOk fc false fcb fcv 0 0.
+Proof. exact parse_su_fixed. Qed.
+
 (* the original parser (ff = false) answers a variable frame whose L is too small to hold the address field,
    taking the checksum octet as the address: 68 01 01 68 43 43 16 is acknowledged by station 0x43 *)
 Theorem C14_short_length_refuted :
